@@ -11,7 +11,7 @@ import (
 )
 
 func init() {
-	props["C09"] = &propDef{run: runC09, explanation: "C09 decided statically: (O1) the applier's window predicate (callee inlined) is extracted as a decision tree over comparisons of {0, from, until, t, from+Δ} and evaluated on every consistent weak ordering of these five points (exhaustive, boundaries included); it returns nil exactly when (from=0 ∧ until=0) ∨ (from ≤ t ≤ U), U = from+Δ if from≠0 ∧ until=0 else until. (P1) Δ is Protocol.MaxOperationTimeDelta in the applier and in the parser, and no other Protocol field is read by either computation. (G1) outside batch mode the three parsers succeed only across TimeValidator.Validate(signedData.AnchorFrom, U(signedData.AnchorFrom, signedData.AnchorUntil)) on the same signed data, with U decided as above; in batch mode the validator is unreachable. (G2) out-of-window update/recover still return the model with the advanced commitment and never install a patched document; out-of-window deactivate is refused. Assumes no int64 overflow in from+Δ and t < 2^63."}
+	props["C09"] = &propDef{run: runC09, explanation: "C09 decided statically: (O1) the applier's window predicate (callee inlined) is extracted as a decision tree over comparisons of {0, from, until, t, from+Δ} and evaluated on every consistent weak ordering of these five points (exhaustive, boundaries included); it returns nil exactly when (from=0 ∧ until=0) ∨ (from ≤ t ≤ U), U = from+Δ if from≠0 ∧ until=0 else until. (P1) Δ is Protocol.MaxOperationTimeDelta in the applier and in the parser, and no other Protocol field is read by either computation. (G1) outside batch mode the three parsers succeed only across TimeValidator.Validate(signedData.AnchorFrom, U(signedData.AnchorFrom, signedData.AnchorUntil)) on the same signed data, with U decided as above; in batch mode the validator is unreachable. (G2) out-of-window update/recover still return the model with the advanced commitment and never install a patched document; out-of-window deactivate is refused. Assumes no int64 overflow in from+Δ and t < 2^63. (K1) the parser and applier never assign a field of protocol.Protocol; (U1) the signed anchoring times are compared nowhere in the parser except in the default-expiry function."}
 }
 
 // windowFn discovers, in an apply function, the static callee invoked with
